@@ -32,7 +32,7 @@ def generate(rnd, tier):
     for _ in range(1500 if tier == "quick" else 15000):
         items = [rnd.choice([["text", gen_text(rnd)], ["sep", rnd.randint(1, 3)], gen_tree(rnd, 1)]) for _ in range(rnd.randint(0, 5))]
         cases.append(with_cc({"op": "tree", "tree": ["window", rnd.choice([None, "", "Title", "a long title of the window that wraps"]), items],
-                              "ops": [["render", rnd.choice([1, 3, 8, 20, 40, 80])]]}))
+                              "ops": [["render", rnd.choice([1, 3, 8, 20, 40, 80])]] * rnd.choice([1, 2, 3])}))
     # whole-screen draws through the real scheduler: long contents on low screens, drawn several times (refresh key, rejected lines, return from a pushed screen)
     for _ in range(300 if tier == "quick" else 3000):
         nscr = rnd.randint(1, 2)
@@ -135,7 +135,7 @@ def monitor(case, obs):
         if obs["str"] != exp: return "str(prompt) = %r, expected %r" % (obs["str"], exp)
         return None
     if case["op"] == "tree" and case["tree"][0] == "window":
-        o = obs[0]
+        o = obs[-1]          # the last render of the same window object (rendered one to three times): exactly its content, nothing else
         if "err" in o: return None
         title, items = case["tree"][1], case["tree"][2]
         w = case["ops"][0][1]
